@@ -14,9 +14,10 @@ ENTRY = ['query_table', 'query', 'query_csv', 'cli_file', 'cli_stdio', 'cli_stdi
 
 def gen_case(ctx):
     r = ctx.rng
-    na = r.randint(2, 3)
+    na = r.randint(2, 3) if r.random() < 0.85 else 1      # (one-column tables too: with an EMPTY cell the CSV line is an empty line - still a record; seeded change C13-12)
     hdr = r.sample(['id', 'name', 'val', 'grp', 'x1'], na)
-    A = [[r.choice(CELLS) for _ in range(na)] for _ in range(r.choice([0, 1, 2, 3, 4, 5]))]     # zero-row tables included
+    cells = CELLS + [''] * (6 if r.random() < 0.3 else 0)
+    A = [[r.choice(cells) for _ in range(na)] for _ in range(r.choice([0, 1, 2, 3, 4, 5]))]     # zero-row tables included
     join = r.random() < 0.25
     hdrB, B = None, None
     if join:
@@ -32,7 +33,7 @@ def gen_case(ctx):
         sp = r.random()
         return '%s%d' % (side, i + 1) if sp < 0.3 else ('%s.%s' % (side, names[i]) if sp < 0.7 else '%s["%s"]' % (side, names[i]))
     shape = r.random()
-    if shape < 0.1 and not join:
+    if shape < 0.1 and not join and na > 1:
         # EXCEPT with columns spelled by name (also over a zero-row table: the names must still resolve)
         idxs = sorted(set(r.randint(0, na - 1) for _ in range(r.randint(1, 2))))[:na - 1]      # at least one column stays: a zero-width record has no CSV form
         q = 'select * except %s' % ', '.join(name_of('a', i, hdr) for i in idxs)
@@ -65,6 +66,13 @@ def gen_case(ctx):
             # looks INSIDE the string: a front-end that decodes the bytes differently (e.g. another default encoding) shows here
             e1, t1, _ = fld()
             e, t, h = ('len', e1), 'len(%s)' % t1, '(7)'
+        elif x < 0.76:
+            # values of different types that are EQUAL as Python objects (True == 1, NR is an int): the text written for a value is the
+            # text of THAT value through every front-end (seeded change C13-11: a cache of rendered cells keyed by the raw value)
+            e1, t1, _ = fld()
+            v = r.choice(CELLS[:4])
+            e, t, h = r.choice([(('eq', e1, ('lit', v)), '%s == "%s"' % (t1, v), '(7)'), (('NR',), 'NR', '(3 %s)' % lib.enc('NR')),
+                                (('eq', ('NR',), ('lit', 1)), 'NR == 1', '(7)'), (('lit', 1), '1', '(7)')])
         elif x < 0.8 and not join:
             items.append(('star',)); texts.append('*'); hitems.append('(4)')
             continue
@@ -73,6 +81,12 @@ def gen_case(ctx):
         else:
             e, t, h = ('lit', 'c'), '"c"', '(7)'
         items.append(('expr', e)); texts.append(t); hitems.append(h)
+    if r.random() < 0.2:
+        # ... and side by side in one record: 1 next to True, 0 next to False
+        for e, t, h in r.choice([[(('NR',), 'NR', '(3 %s)' % lib.enc('NR')), (('eq', ('NR',), ('lit', 1)), 'NR == 1', '(7)')],
+                                 [(('eq', ('NR',), ('lit', 1)), 'NR == 1', '(7)'), (('lit', 1), '1', '(7)'), (('lit', 0), '0', '(7)')],
+                                 [(('lit', 0), '0', '(7)'), (('eq', ('NR',), ('lit', 1)), 'NR == 1', '(7)'), (('NR',), 'NR', '(3 %s)' % lib.enc('NR'))]]):
+            items.append(('expr', e)); texts.append(t); hitems.append(h)
     where, wtxt = None, ''
     if r.random() < 0.4:
         e1, t1, _ = fld()
